@@ -75,6 +75,10 @@ VARIANTS = {
                                               "    copy_node_metadata(node_src=node_sibling, node_trg=(node_func_call, *nodes_args))\n", 'C05.R3',
                                               'the annotation node shared with the original statement gets the line number of the statement'),
     # ---- neutral --------------------------------------------------------------------
+    'nested-classes-skipped-in-class-bodies': tseeded(MAIN, lambda t: replace_where(
+        t, lambda n: isinstance(n, ast.Expr) and 'self._decorate_node_beartype' in ast.unparse(n),
+        lambda n: stmts('if not self._scopes.is_scope_class:\n    self._decorate_node_beartype(node=node, conf=self._conf)')[0],
+        scope='BeartypeNodeTransformer.visit_ClassDef'), 'C05.R2', 'seeded C05-22'),
     'n-annassign-return-tuple': neutral(ASG, "        return [node, node_func]", "        return (node, node_func)"),
     'n-visit-param-renamed': Variant('neutral', [MAIN], (lambda files: _rename_classdef_param(files)), None, 'parameter of visit_ClassDef renamed'),
     'n-module-scan-comment': neutral(MOD, "                    node_prev.module == '__future__'", "                    '__future__' == node_prev.module"),
